@@ -600,3 +600,233 @@ Proof.
     + vm_compute. discriminate.
   - vm_compute. exact I.
 Qed.
+
+(* ---------- 5. composed with the database model ------------------------------------------------------------ *)
+
+From Dnp3V Require Import Outstation.DbTypes Outstation.EventBuffer Outstation.StaticDb Outstation.Database.
+From Dnp3V Require Import Outstation.Full Outstation.FullProofs.
+
+Definition no_write (a : list answer) : Prop := match a with AWrite _ _ _ :: _ => False | _ => True end.
+Definition no_evinfo (a : list answer) : Prop := match a with AEvinfo _ _ _ _ :: _ => False | _ => True end.
+
+Lemma format_read_response_nowrite s fir seq iin2 :
+  no_write (s_answers s) ->
+  exists s1 r se, format_read_response s fir seq iin2 = (s1, r, se, [ODb DbWrite; OMissingAnswer]).
+Proof.
+  intros Hn. unfold format_read_response, ask_write.
+  destruct (s_answers s) as [|[] rest]; try contradiction; do 3 eexists; reflexivity.
+Qed.
+
+Lemma write_solicited_noevinfo s dest r :
+  no_evinfo (s_answers s) ->
+  exists s1 r' b, write_solicited s dest r = (s1, r', [ODb DbEvinfo; OMissingAnswer; OTx dest b]).
+Proof.
+  intros Hn. unfold write_solicited, response_iin, ask_evinfo.
+  destruct (s_answers s) as [|[] rest]; try contradiction; do 3 eexists; reflexivity.
+Qed.
+
+Section ConfirmStep.
+  Variable cfg : ocfg.
+  Variables (from : N) (bytes : list N) (dg : digest) (ctl : N) (obj : objres) (se : series) (dl : Z) (r : resume).
+  Hypothesis Hfin : se_fin se = false.
+  Hypothesis Et : to_treq cfg from dg = TqRequest ctl fn_confirm obj.
+  Hypothesis Hu : ctl_uns ctl = false.
+  Hypothesis Hq : ctl_seq ctl = se_ecsn se.
+
+  Lemma confirm_rx_no_write s s' o :
+    s_control s = CSolWait se dl r -> no_write (s_answers s) ->
+    on_rx cfg s from None bytes dg = (s', o) ->
+    exists tail, o = [OInfo (ISolConfirmed (se_ecsn se)); ODb DbClearWritten; ODb DbWrite; OMissingAnswer] ++ tail.
+  Proof.
+    intros Hc Ha H.
+    unfold on_rx in H. cbv zeta in H. psimpl_in H. rewrite Hc in H.
+    unfold sol_wait_fragment in H. rewrite Et in H.
+    unfold classify in H. change (fn_confirm =? fn_confirm) with true in H. cbv iota in H.
+    rewrite Hu, Hq, N.eqb_refl, Hfin in H.
+    match type of H with context [format_read_response ?sx false ?a ?b] =>
+      destruct (format_read_response_nowrite sx false a b Ha) as (s1 & r1 & se1 & E1) end.
+    rewrite E1 in H.
+    match type of H with context [write_solicited ?a ?b ?c] => destruct (write_solicited a b c) as [[s3 r3] o3] end.
+    destruct se1 as [n|].
+    - inv_pair H. eexists. cbn [app]. reflexivity.
+    - match type of H with context [resume_at cfg ?st ?sx] => destruct (resume_at cfg st sx) as [s5 o5] end.
+      inv_pair H. eexists. cbn [app]. reflexivity.
+  Qed.
+End ConfirmStep.
+
+Section ConfirmStep2.
+  Variable cfg : ocfg.
+  Variables (from : N) (bytes : list N) (dg : digest) (ctl : N) (obj : objres) (se : series) (dl : Z) (r : resume).
+  Hypothesis Hfin : se_fin se = false.
+  Hypothesis Et : to_treq cfg from dg = TqRequest ctl fn_confirm obj.
+  Hypothesis Hu : ctl_uns ctl = false.
+  Hypothesis Hq : ctl_seq ctl = se_ecsn se.
+
+  Lemma confirm_rx_no_evinfo s s' o c e b rest :
+    s_control s = CSolWait se dl r -> s_answers s = AWrite c e b :: rest -> no_evinfo rest ->
+    on_rx cfg s from None bytes dg = (s', o) ->
+    exists tail, o = [OInfo (ISolConfirmed (se_ecsn se)); ODb DbClearWritten; ODb DbWrite; ODb DbEvinfo; OMissingAnswer] ++ tail.
+  Proof.
+    intros Hc Ha Hn H.
+    unfold on_rx in H. cbv zeta in H. psimpl_in H. rewrite Hc in H.
+    unfold sol_wait_fragment in H. rewrite Et in H.
+    unfold classify in H. change (fn_confirm =? fn_confirm) with true in H. cbv iota in H.
+    rewrite Hu, Hq, N.eqb_refl, Hfin in H.
+    match type of H with context [format_read_response ?sx false ?a0 ?b0] =>
+      destruct (format_read_response_exact sx false a0 b0 c e b rest Ha) as (s1 & E1 & A1 & _) end.
+    rewrite E1 in H. rewrite <- A1 in Hn.
+    match type of H with context [write_solicited s1 ?b0 ?c0] =>
+      destruct (write_solicited_noevinfo s1 b0 c0 Hn) as (s3 & r3 & bb & E3) end.
+    rewrite E3 in H.
+    destruct (read_series c e (seq16_next (se_ecsn se))) as [n|].
+    - inv_pair H. eexists. cbn [app]. reflexivity.
+    - match type of H with context [resume_at cfg ?st ?sx] => destruct (resume_at cfg st sx) as [s5 o5] end.
+      inv_pair H. eexists. cbn [app]. reflexivity.
+  Qed.
+
+  (* the observations of the step: those of on_rx, then those of the settling time *)
+  Lemma ostep_rx_out s bc a :
+    exists o2, snd (ostep cfg s (ERx from bc bytes dg) a) = snd (on_rx cfg (upd_answers s a) from bc bytes dg) ++ o2.
+  Proof.
+    unfold ostep. destruct (on_rx cfg (upd_answers s a) from bc bytes dg) as [s1 o1].
+    destruct (advance 64 cfg s1 (s_now s1 + settle_ms)) as [s2 o2]. exists o2. reflexivity.
+  Qed.
+End ConfirmStep2.
+
+Lemma walk_confirm_write F d c q tl :
+  walk F d c 0 [] (OInfo (ISolConfirmed q) :: ODb DbClearWritten :: ODb DbWrite :: OMissingAnswer :: tl) =
+  let '(d1, (ids, cnt)) := db_clear_written d in
+  let '(d2, a) := write_answer F d1 in
+  WAsk d2 c (FAns a :: FObs (ODb DbWrite) :: FCleared ids (c_c1 cnt) (c_c2 cnt) (c_c3 cnt) :: FObs (ODb DbClearWritten)
+             :: FObs (OInfo (ISolConfirmed q)) :: []) a 3.
+Proof.
+  cbn [walk tx_log app]. destruct (db_clear_written d) as [d1 [ids cnt]]. cbn [walk].
+  destruct (write_answer F d1) as [d2 a]. reflexivity.
+Qed.
+
+Lemma walk_evinfo_q F d c n log tl :
+  walk F d c n log (ODb DbEvinfo :: OMissingAnswer :: tl) =
+  WAsk d c (FAns (evinfo_answer_of d) :: FObs (ODb DbEvinfo) :: log) (evinfo_answer_of d) (S n).
+Proof. reflexivity. Qed.
+
+Local Strategy opaque [ostep on_rx advance resume_at idle_run replay].
+Lemma fevent_confirm_answers : forall F st d from bytes dg ctl obj se dl r,
+  s_control (fs_s st) = CSolWait se dl r -> se_fin se = false ->
+  to_treq (f_o F) from dg = TqRequest ctl fn_confirm obj -> ctl_uns ctl = false -> ctl_seq ctl = se_ecsn se ->
+  let ro := fevent_out F st d (ERx from None bytes dg) in
+  ~ In FReplayError (ro_log ro) ->
+  let w := db_write_response (fst (db_clear_written d)) (N.of_nat (o_sol_tx (f_o F)) - 4) in
+  exists more, ro_answers ro = AWrite (snd (snd w)) (snd (fst (snd w))) (fst (fst (snd w))) :: evinfo_answer_of (fst w) :: more.
+Proof.
+  intros F st d from bytes dg ctl obj se dl r Hc Hfin Et Hu Hq ro Hno w.
+  set (cfg := f_o F) in *. set (s := fs_s st) in *. set (ev := ERx from None bytes dg) in *.
+  set (run := fun a => ostep cfg s ev a).
+  set (body := fst (fst (snd w))). set (has_events := snd (fst (snd w))). set (complete := snd (snd w)).
+  subst ro. unfold fevent_out, replay_event in *. fold cfg s run in Hno |- *. cbv zeta in Hno |- *.
+  match goal with |- context [replay replay_fuel F run ?x] => set (r0 := x) in * end.
+  assert (W1 : exists log1, walk F (rs_db r0) (rs_ctx r0) (rs_settled r0) (rs_log r0)
+                 (skipn (rs_settled r0) (snd (run (rs_answers r0 ++ [sentinel]))))
+               = WAsk (fst w) (rs_ctx r0) log1 (AWrite complete has_events body) 3).
+  { subst r0. cbn [rs_db rs_ctx rs_settled rs_log rs_answers skipn app]. unfold run, ev.
+    destruct (ostep_rx_out cfg from bytes dg s None [sentinel]) as [o2 ->].
+    destruct (on_rx cfg (upd_answers s [sentinel]) from None bytes dg) as [s1 o1] eqn:E1.
+    destruct (confirm_rx_no_write cfg from bytes dg ctl obj se dl r Hfin Et Hu Hq (upd_answers s [sentinel]) _ _ Hc I E1) as [tail ->].
+    cbn [snd app]. rewrite walk_confirm_write.
+    subst body has_events complete w. unfold write_answer. fold cfg.
+    destruct (db_clear_written d) as [dd [ids cnt]]. cbn [fst].
+    destruct (db_write_response dd (N.of_nat (o_sol_tx cfg) - 4)) as [d2 [[bs he] cp]]. cbn [fst snd].
+    eexists. reflexivity. }
+  destruct W1 as [log1 W1].
+  change replay_fuel with (S (S 2998)) in *.
+  rewrite (replay_step _ F run r0 _ _ _ _ _ W1) in *.
+  match goal with |- context [replay (S 2998) F run ?x] => set (r1 := x) in * end.
+  assert (W2 : exists log2, walk F (rs_db r1) (rs_ctx r1) (rs_settled r1) (rs_log r1)
+                 (skipn (rs_settled r1) (snd (run (rs_answers r1 ++ [sentinel]))))
+               = WAsk (fst w) (rs_ctx r1) log2 (evinfo_answer_of (fst w)) 4).
+  { subst r1 r0. cbn [rs_db rs_ctx rs_settled rs_log rs_answers app]. unfold run, ev.
+    destruct (ostep_rx_out cfg from bytes dg s None [AWrite complete has_events body; sentinel]) as [o2 ->].
+    destruct (on_rx cfg (upd_answers s [AWrite complete has_events body; sentinel]) from None bytes dg) as [s1 o1] eqn:E1.
+    destruct (confirm_rx_no_evinfo cfg from bytes dg ctl obj se dl r Hfin Et Hu Hq
+                (upd_answers s [AWrite complete has_events body; sentinel]) _ _ complete has_events body [sentinel]
+                Hc eq_refl I E1) as [tail ->].
+    cbn [snd app skipn]. rewrite walk_evinfo_q. eexists. reflexivity. }
+  destruct W2 as [log2 W2].
+  rewrite (replay_step _ F run r1 _ _ _ _ _ W2) in *.
+  match goal with |- context [replay 2998 F run ?x] => set (r2 := x) in * end.
+  destruct (replay 2998 F run r2) as [rf|rf] eqn:R.
+  - destruct (replay_extends 2998 F run r2 rf (or_introl R)) as [l Hl].
+    destruct (ostep cfg s ev (rs_answers rf)) as [sx ox]. cbn [ro_answers]. exists l. rewrite Hl.
+    subst r2 r1 r0. cbn [rs_answers app]. reflexivity.
+  - exfalso. destruct (ostep cfg s ev (rs_answers rf)) as [sx ox]. cbn [ro_log] in Hno. apply Hno. apply in_rev_cons_r.
+Qed.
+
+(* THEOREM 5.  Composed with the database model (Outstation/Full.v): the step of the composed model for
+   the expected CONFIRM of a non-final fragment.  The database d is the one the step starts with (user
+   transactions applied since the previous fragment included).  Unless the replay failed
+   (FReplayError), the next fragment carries exactly the bytes db_write_response produces from d after
+   clear_written_events - no selection, no reset in between - with FIN / CON from its verdict, and the
+   IIN bits are asked from the database as that write left it. *)
+Theorem fevent_next_fragment : forall F st d from bytes dg ctl obj se dl r,
+  s_control (fs_s st) = CSolWait se dl r -> se_fin se = false ->
+  to_treq (f_o F) from dg = TqRequest ctl fn_confirm obj -> ctl_uns ctl = false -> ctl_seq ctl = se_ecsn se ->
+  let ro := fevent_out F st d (ERx from None bytes dg) in
+  ~ In FReplayError (ro_log ro) ->
+  let w := db_write_response (fst (db_clear_written d)) (N.of_nat (o_sol_tx (f_o F)) - 4) in
+  let body := fst (fst (snd w)) in
+  let has_events := snd (fst (snd w)) in
+  let complete := snd (snd w) in
+  exists iin1 iin2 tail more,
+    ro_answers ro = AWrite complete has_events body :: evinfo_answer_of (fst w) :: more /\
+    ro_out ro = [OInfo (ISolConfirmed (se_ecsn se)); ODb DbClearWritten; ODb DbWrite; ODb DbEvinfo;
+                 OTx from ([ctl_byte false complete (has_events || negb complete) false (seq16_next (se_ecsn se));
+                            129; iin1; iin2] ++ body)] ++ tail.
+Proof.
+  intros F st d from bytes dg ctl obj se dl r Hc Hfin Et Hu Hq ro Hno w body has_events complete.
+  destruct (fevent_confirm_answers F st d from bytes dg ctl obj se dl r Hc Hfin Et Hu Hq Hno) as [more Hans].
+  fold ro w body has_events complete in Hans.
+  pose proof (fevent_complete F st d (ERx from None bytes dg) Hno) as [Hrun _]. fold ro in Hrun.
+  set (cfg := f_o F) in *. set (s := fs_s st) in *.
+  destruct (evinfo_answer_of (fst w)) as [v|c0 e0 b0|n0 b0|c1 c2 c3 ovf] eqn:Eev;
+    try (unfold evinfo_answer_of in Eev; destruct (db_unwritten_classes (fst w)) as [[? ?] ?]; discriminate Eev).
+  rewrite Hans in Hrun.
+  destruct (ostep_rx_out cfg from bytes dg s None (AWrite complete has_events body :: AEvinfo c1 c2 c3 ovf :: more)) as [o2 Ho].
+  rewrite Hrun in Ho. cbn [snd] in Ho.
+  destruct (on_rx cfg (upd_answers s (AWrite complete has_events body :: AEvinfo c1 c2 c3 ovf :: more)) from None bytes dg)
+    as [s1 o1] eqn:E1.
+  destruct (next_fragment_after_confirm cfg (upd_answers s (AWrite complete has_events body :: AEvinfo c1 c2 c3 ovf :: more))
+              from bytes dg ctl obj se dl r complete has_events body c1 c2 c3 ovf more s1 o1
+              Hc Hfin Et Hu Hq eq_refl E1) as (iin1 & iin2 & tail & Ho1 & _).
+  exists iin1, iin2, (tail ++ o2), more. split; [exact Hans|].
+  rewrite Ho. cbn [snd]. rewrite Ho1, <- app_assoc. reflexivity.
+Qed.
+
+(* non-vacuity: four counters, a transmit buffer that holds one of them per fragment, a class 0 READ; the
+   counter that comes next is updated while the first fragment awaits its confirm: the second fragment
+   carries the value selected when the READ was processed (11), not the new one (99) *)
+Definition ex_F : fcfg :=
+  {| f_o := {| o_master := 1; o_any_master := false; o_unsol := false; o_broadcast := true;
+               o_confirm_ms := 5000; o_select_ms := 5000; o_retries := None; o_retry_delay_ms := 5000;
+               o_max_controls := None; o_sol_tx := 20; o_delay_ms := 0; o_cold := None; o_warm := None;
+               o_wtime := 0; o_freeze := 1 |};
+     f_unsol_tx := 2048; f_evbuf := 5 |}.
+
+Fixpoint ffinal (F : fcfg) (st : fstate) (ops : list fop) : fstate :=
+  match ops with [] => st | op :: r => ffinal F (fst (fstep F st op)) r end.
+
+Definition ex_count (v : N) : meas := mkMeas v 1 None [].
+Definition ex_ops : list fop :=
+  [FAdd TCounter 0 None; FAdd TCounter 1 None; FAdd TCounter 2 None; FAdd TCounter 3 None;
+   FUpdate TCounter 0 (ex_count 10); FUpdate TCounter 1 (ex_count 11); FUpdate TCounter 2 (ex_count 12);
+   FUpdate TCounter 3 (ex_count 13);
+   FRx 1 None [193; 1; 60; 1; 6];
+   FUpdate TCounter 1 (ex_count 99)].
+Definition ex_fst : fstate := ffinal ex_F (fst (fstart ex_F 0 0 0)) ex_ops.
+
+Example ex_fevent_next_fragment :
+  s_control (fs_s ex_fst) = CSolWait {| se_ecsn := 1; se_fin := false |} 5008 RStep2 /\
+  let ro := fevent_out ex_F ex_fst (fs_db ex_fst) (ERx 1 None [193; 0] (frag_digest [193; 0])) in
+  existsb (fun x => match x with FReplayError => true | _ => false end) (ro_log ro) = false /\
+  ro_answers ro = [AWrite false false [20; 1; 1; 1; 0; 1; 0; 1; 11; 0; 0; 0]; AEvinfo false false false false] /\
+  ro_out ro = [OInfo (ISolConfirmed 1); ODb DbClearWritten; ODb DbWrite; ODb DbEvinfo;
+               OTx 1 ([ctl_byte false false true false 2; 129; 128; 0] ++ [20; 1; 1; 1; 0; 1; 0; 1; 11; 0; 0; 0])].
+Proof. vm_compute. auto. Qed.
